@@ -265,4 +265,4 @@ def run_history(case: dict[str, Any]) -> Outcome:
 def main(chk: Check) -> None:
     complete = chk.enumerate("grid", grid_cases(), run_grid)
     chk.extra["grid_complete"] = bool(complete)
-    chk.explore("histories", histories, run_history, quick=250, thorough=6000)
+    chk.explore("histories", histories, run_history, quick=500, thorough=6000)
